@@ -32,7 +32,7 @@ def worker_rules(rep, rid, w, S, FLAGS, FUTEX, QHEAD, QTAIL, FUNC, STOP, tag="wo
     every item's function invoked, the loop left only on STOP (and STOP can be reached)."""
     # ---- B. the worker ------------------------------------------------------------------------------------------------
     rep.touch(w)
-    dec = [e.inst for e in pat.accesses(w, FUTEX, ("rmw",)) if e.rop == "dec"]
+    dec = [e.inst for e in pat.accesses(w, FUTEX, ("rmw",)) if pat.is_decrement(w, e)]
     qrd = [i for i in w.all_insts() if i.op in ("load", "asm", "rmw", "cmpxchg") and (lambda e: e is not None and e.ap is not None and any(x in pat.full_ap_fields(e.ap) for x in (QHEAD, QTAIL)))(mm.effect_of(i))]
     pat.require(qrd, "worker: queue reads")
     if not dec:
@@ -148,7 +148,7 @@ def rule_workqueue(ctx, rep, rid):
     # ---- E. completion barrier (flush) -------------------------------------------------------------------------------------
     qc = _f(ctx, "urcu_workqueue_queue_completion")
     rep.touch(qc)
-    inc = [e.inst for e in pat.accesses(qc, "urcu_workqueue_completion.barrier_count", ("rmw",)) if e.rop in ("inc", "add")]
+    inc = [e.inst for e in pat.accesses(qc, "urcu_workqueue_completion.barrier_count", ("rmw",)) if pat.is_increment(qc, e)]
     qw = pat.calls(qc, "urcu_workqueue_queue_work")
     if not inc or not qw:
         rep.bad(rid, "queue_completion.anatomy", "queue_completion lacks barrier_count++ / queue_work", [qc.name])
@@ -171,7 +171,7 @@ def rule_workqueue(ctx, rep, rid):
             rep.check(g, rid, "marker.wakes-on-zero", "the waiter is woken by the marker that brings barrier_count to 0", "wake-up of the flush waiter is not tied to barrier_count reaching 0", [x.where()])
     wc = _f(ctx, "urcu_workqueue_wait_completion")
     rep.touch(wc)
-    wdec = [e.inst for e in pat.accesses(wc, "urcu_workqueue_completion.futex", ("rmw",)) if e.rop == "dec"]
+    wdec = [e.inst for e in pat.accesses(wc, "urcu_workqueue_completion.futex", ("rmw",)) if pat.is_decrement(wc, e)]
     brd = pat.loads(wc, "urcu_workqueue_completion.barrier_count")
     if not wdec or not brd:
         rep.bad(rid, "wait_completion.anatomy", "wait_completion lacks futex dec / barrier_count read", [wc.name])
